@@ -109,7 +109,7 @@ def expected(b):
         outer_def = _own_def_signature(b.target)
         return finish(alts, why.replace('incompatible in some order', 'incompatible in some  order'), pcs,
                       lambda e: signatures.forwards(outer_def, e), ' (through the wrapping decorator)')
-    if route in ('self_method', 'self_attr', 'classmethod_cls', 'self_shadow_nested'):
+    if route in ('self_method', 'self_attr', 'self_attr_store', 'classmethod_cls', 'self_shadow_nested'):
         fsig = signatures.signature(b.target.__func__)
         alts, why, pcs = _function_expectation(b, fsig)
         return finish(alts, why, pcs, lambda e: signatures.mask(e, 1), ', bound')
